@@ -161,18 +161,18 @@ void vterm_automate_newdata(struct vterm_automate *vterm, int16_t input_c)
             {
                 char buf[16];
 
-                if (vterm->rl.lastsize)
+                if (vterm->echo)
                 {
-                    if (vterm->echo)
+                    if (vterm->rl.lastsize)
                     {
                         ret = vt100_left(buf, vterm->rl.lastsize);
 
                         vterm->write_callback(vterm->write_privdata, buf, ret);
-
-                        vterm->write_callback(vterm->write_privdata,
-                                              VT100_ERASE_LINE_AFTER_CURSOR,
-                                              3);
                     }
+
+                    vterm->write_callback(vterm->write_privdata,
+                                          VT100_ERASE_LINE_AFTER_CURSOR,
+                                          3);
                 }
 
                 if (vterm->rl.line.len)
